@@ -400,7 +400,14 @@ class SupervisedTimeSeriesForest(ForestClassifier, BaseClassifier):
             axis=1,
         )
 
-        return estimator.predict_proba(transformed_x)
+        proba = estimator.predict_proba(transformed_x)
+        if proba.shape[1] != self.n_classes:
+            # the bootstrap bag of this tree missed a class: align its
+            # columns with classes_
+            full = np.zeros((n_instances, self.n_classes))
+            full[:, np.searchsorted(self.classes_, estimator.classes_)] = proba
+            proba = full
+        return proba
 
 
 def fisher_score(X, y, classes=None, class_counts=None):
